@@ -4,7 +4,7 @@
    with a row pitch; `block_image` for block formats.  The implementation is compared with
    blit(prefill, crop(rect, map chmap (native full decode))) for all 73 formats (harness tag 5). *)
 From Coq Require Import ZArith List Bool Lia.
-From DDSV Require Import base.Machine model.Layout model.DecodeScript model.Crop model.RectPath model.PixelPath proofs.CropProofs proofs.RectPathProofs proofs.PixelPathProofs.
+From DDSV Require Import base.Machine model.Layout model.DecodeScript model.Crop model.RectPath model.PixelPath model.BiPlanarPath proofs.CropProofs proofs.RectPathProofs proofs.PixelPathProofs proofs.BiPlanarProofs.
 Import ListNotations.
 Local Open Scope Z_scope.
 
@@ -123,6 +123,33 @@ Example C05_pixel_path_ex :
   = Some [[3086; 3600; 4114]; [5656; 6170; 6684]]%Z.
 Proof. vm_compute. reflexivity. Qed.
 
+(* ---- the bi-planar code paths (model/BiPlanarPath.v: for_each_bi_planar_rect with its uv-line loop, running y,
+   `continue` / `break`; for_each_bi_planar; ChannelConversionBuffer::process_bi_planar; process_bi_planar_helper).
+   For every element size, sub-sampling sx x sy, per-pixel conversion `gpx`, channel conversion, buffer size, surface,
+   rectangle and data: every pixel (x, y) meets plane-1 element y * W + x and the plane-2 element of its own cell
+   (y / sy) * ceil(W / sx) + x / sx with row y mod sy inside the cell (bp_spec_image), and the rectangle path is the crop. *)
+Theorem C05_bi_planar_rect_is_crop : forall (A B : Type) (e1 e2 sx sy : nat) (gpx : list Z -> list Z -> nat -> A) (cv : A -> B),
+  (1 <= e1)%nat -> (1 <= e2)%nat -> (1 <= sx)%nat -> (1 <= sy)%nat -> forall f : bpfn A, bpfn_ok A e1 e2 sx gpx f ->
+  forall (W H : nat) (data : list Z), (1 <= W)%nat -> (length data = W * e1 * H + cdiv W sx * e2 * cdiv H sy)%nat ->
+  forall (conv : bool) (bufpx ox oy w h : nat), (ox + w <= W)%nat -> (oy + h <= H)%nat -> (1 <= w)%nat -> (1 <= h)%nat -> (conv = true -> sx <= bufpx)%nat ->
+  bp_rect_image A B e1 e2 sx sy cv f conv bufpx W H ox oy w h data = Some (crop_of ox oy w h (bp_spec_image A B e1 e2 sx sy gpx cv W H data)).
+Proof. exact bp_rect_is_crop. Qed.
+Theorem C05_bi_planar_full_is_spec : forall (A B : Type) (e1 e2 sx sy : nat) (gpx : list Z -> list Z -> nat -> A) (cv : A -> B),
+  (1 <= e1)%nat -> (1 <= e2)%nat -> (1 <= sx)%nat -> (1 <= sy)%nat -> forall f : bpfn A, bpfn_ok A e1 e2 sx gpx f ->
+  forall (W H : nat) (data : list Z), (1 <= W)%nat -> (length data = W * e1 * H + cdiv W sx * e2 * cdiv H sy)%nat ->
+  forall (conv : bool) (bufpx : nat), (1 <= H)%nat -> (conv = true -> sx <= bufpx)%nat ->
+  bp_full_image A B e1 e2 sx sy cv f conv bufpx W H data = Some (bp_spec_image A B e1 e2 sx sy gpx cv W H data).
+Proof. exact bp_full_is_spec. Qed.
+Theorem C05_bi_planar_helper_ok : forall (A : Type) (e1 e2 sx : nat) (gpx : list Z -> list Z -> nat -> A),
+  (1 <= e1)%nat -> (1 <= e2)%nat -> (1 <= sx)%nat -> bpfn_ok A e1 e2 sx gpx (bp_row A e1 e2 sx gpx).
+Proof. exact bp_row_ok'. Qed.
+Example C05_bi_planar_ex :
+  let g := fun (a b : list Z) (y : nat) => (hd 0 a * 10000 + hd 0 b * 10 + Z.of_nat y)%Z in
+  let data := map Z.of_nat (seq 1 (6 * 4 + 3 * 2 * 2)) in
+  bp_rect_image Z Z 1 2 2 2 (fun v => v) (bp_row Z 1 2 2 g) true 2 6 4 1 1 4 2 data
+  = Some [[80251; 90271; 100271; 110291]; [140310; 150330; 160330; 170350]]%Z.
+Proof. vm_compute. reflexivity. Qed.
+
 (* non-vacuity: a 7 x 6 surface of 4 x 4 blocks, conversion through a 40-byte buffer, rectangle (2, 1, 5, 4) *)
 Example C05_rect_path_ex :
   let dec := fun b : list Z => map (fun i => (hd 0 b * 100 + Z.of_nat i)%Z) (seq 0 16) in
@@ -137,5 +164,5 @@ Proof. reflexivity. Qed.
 
 Definition C05_all := (C05_chmap_via_rgba, C05_chmap_id, C05_chmap_length, C05_crop_pixel, C05_crop_crop, C05_crop_map_px,
   C05_blit_outside, C05_blit_covered, C05_block_pixel_local, C05_block_rect_script_rows, C05_rect_block_rows_cover, C05_rect_block_rows_minimal,
-  C05_rect_path_is_crop, C05_full_path_is_spec, C05_general_process_blocks_ok, C05_process_4x4_blocks_ok, C05_process_2x1_blocks_ok, C05_spec_image_pixel, C05_buffer_fits, C05_pixel_rect_is_crop, C05_pixel_full_is_spec).
+  C05_rect_path_is_crop, C05_full_path_is_spec, C05_general_process_blocks_ok, C05_process_4x4_blocks_ok, C05_process_2x1_blocks_ok, C05_spec_image_pixel, C05_buffer_fits, C05_pixel_rect_is_crop, C05_pixel_full_is_spec, C05_bi_planar_rect_is_crop, C05_bi_planar_full_is_spec, C05_bi_planar_helper_ok).
 Redirect "props/C05.assumptions" Print Assumptions C05_all.
